@@ -74,6 +74,7 @@ def main(argv):
 		finally:
 			sh('git checkout -q -- . && git clean -fdq', cwd=repo)
 		json.dump(results, open(res_path, 'w'), indent=1, sort_keys=True)
+	json.dump(results, open(res_path, 'w'), indent=1, sort_keys=True)
 	if not inplace:
 		sh('rm -rf /tmp/r2')
 
